@@ -78,6 +78,7 @@ class Registry:
         self.axioms = []
         self.named_tuples = {}
         self.enums = {}
+        self.tuple_props = {}
         self.opaque_methods = {}
         self.opaque_raises = {}
         self.opaque_attrs = {}
@@ -99,6 +100,11 @@ class Registry:
     def enum(self, name, members, t):
         """An enum.Enum class: its members are pairwise distinct constants of the opaque type t."""
         self.enums[name] = (list(members), t)
+
+    def tuple_property(self, tup, name, file):
+        """A read-only @property of a NamedTuple class: its real one-line body (`return <expr>`) is read from `file` and
+        evaluated with `self` bound to the tuple."""
+        self.tuple_props[(tup.nm, name)] = file
 
     def named_tuple(self, name, tup):
         self.named_tuples[name] = tup
@@ -193,5 +199,6 @@ spec_fn = REG.spec_fn
 provider = REG.provider
 named_tuple = REG.named_tuple
 enum = REG.enum
+tuple_property = REG.tuple_property
 opaque_method = REG.opaque_method
 opaque_attr = REG.opaque_attr
